@@ -33,6 +33,7 @@ import lib
 import iotie
 import serdesjsontie
 import literaltie
+import routasttie
 import serdesasttie
 from lib import coq_list
 
@@ -41,6 +42,7 @@ COQ_TARGETS = COQ_TARGETS + [t for t in iotie.COQ_TARGETS if t not in COQ_TARGET
 COQ_TARGETS = COQ_TARGETS + [t for t in serdesjsontie.COQ_TARGETS if t not in COQ_TARGETS]
 COQ_TARGETS = COQ_TARGETS + [t for t in serdesasttie.COQ_TARGETS_LOAD if t not in COQ_TARGETS]
 COQ_TARGETS = COQ_TARGETS + [t for t in literaltie.COQ_TARGETS if t not in COQ_TARGETS]
+COQ_TARGETS = COQ_TARGETS + [t for t in routasttie.COQ_TARGETS if t not in COQ_TARGETS]
 THEOREMS = ["C14_full_holds", "C14_full_pinned_refuted", "C14_decode_carriers", "C14_load_carriers", "C14_carriers", "C14_json_text", "C14_literal_text",
             "C14_load_json", "C14_load_plain_text", "C14_load_nontext",
             "C14_refuted_bytearray", "C14_literal_carriers", "C14_refuted_resource"]
@@ -751,6 +753,7 @@ def correspond(run: lib.Run):
     run.tie_failures = list(getattr(run, "tie_failures", [])) + list(serdesasttie.search(run, parts=("load",)))
     lib.run_tie(run, serdesjsontie)      # the JSON decoder of the serdes model IS the proved reader of Model/Json.v (Props/C14Json.v)      # C14 load theorems hold of Core.load (Props/IoBridge.v); the core-io stream runs under C18
     lib.run_tie(run, literaltie)      # ast.literal_eval / repr as an executable reader / writer (Props/C14Literal.v): literal_read (py_repr w) = Some w; JSON-first agrees on repr text
+    lib.run_tie(run, routasttie)      # the first step read off each leaf routine's body IS the head this model assigns (Props/RoutineLeafAst.v: RL_first_model, RL_entry)
 
 
 # ----------------------------------------------------------------------------------
